@@ -104,7 +104,7 @@ def run(R, env):
             carries = any(s_[0] == "agg" and s_[1].endswith("oracle::Oracle") for f_ in msg_forms for s_ in subterms(f_))
             good = good and carries
             if carries:
-                envelope_bodies.add(c.body.key)
+                envelope_bodies.add(c.body.key.split("::{closure")[0])  # (built in a closure of the poster: `addr.map(|a| MsgExecuteContract { .. })`)
             R.ob("C15.R3", s + ":envelope", good, "MsgExecuteContract{sender: %s, contract: %s, funds: %s}; expected {contract address, configured oracle address, []} carrying the PostRates json" % (fmt(snd or ("none",))[:60], fmt(con or ("none",))[:100], fmt(funds or ("none",))[:40]), loc=c.body.loc(bi, si), fn=hk)
     R.floor("C15.R2", "poster sites", n_post, 4)
 
